@@ -345,7 +345,14 @@ def check_pruning(rep, prog):
                 return 'path'
             if s.k == 'CXXOperatorCallExpr' and s.op == '()' and len(s.c) == 4 and all(
                     any(d.k == 'CXXMemberCallExpr' and d.callee and d.callee['name'] == 'find_min' for d in x.walk()) for x in s.c[2:4]):
-                return 'tops'
+                objs = []
+                for x in s.c[2:4]:
+                    for d in x.walk():
+                        if d.k == 'CXXMemberCallExpr' and d.callee and d.callee['name'] == 'find_min':
+                            objs.append(ex.key(d.object_arg()))
+                if len(objs) == 2 and objs[0] != objs[1]:
+                    return 'tops'
+                return 'tops-same-frontier'
             return None
 
         def atomize(leaf):
@@ -398,6 +405,10 @@ def check_pruning(rep, prog):
                 atoms = ex.f_atoms(pc)
                 lt = ('lt', 'tops', 'best')
                 empties = [a for a in atoms if isinstance(a, tuple) and a[0] == 'empty']
+                if ('lt', 'tops-same-frontier', 'best') in atoms:
+                    rep.violation('R02i', b, fn, what, 'the stopping rule adds the minimum of ONE frontier to itself instead of top_f + top_b: with unbalanced '
+                                  'frontiers the search stops while a lighter meeting point is still possible', key='R02i|%s|stop-operands' % fn.g)
+                    continue
                 if lt not in atoms:
                     rep.undecided('R02i', b, fn, what, 'stopping condition outside the idiom table')
                     continue
